@@ -286,3 +286,141 @@ func TestC19_MultiRequest(t *testing.T) {
 		},
 		Check: c19MultiCheck})
 }
+
+// ---- imports that are used only from option values ----
+
+type c19OptCase struct {
+	Uses    []string // per import of root.proto, how (and whether) it is used
+	Order   []int    // order of the import statements
+	Literal bool     // values written as one message literal (else as separate option statements)
+}
+
+var c19OptFiles = map[string]string{
+	"opts.proto": `syntax = "proto2";
+package o;
+import "google/protobuf/descriptor.proto";
+import "google/protobuf/any.proto";
+message Cfg { optional int32 i = 1; optional google.protobuf.Any any = 2; extensions 100 to 200; }
+extend google.protobuf.MessageOptions { optional Cfg cfg = 50001; }
+`,
+	"payload.proto": "syntax = \"proto2\";\npackage pl;\nmessage Msg { optional int32 x = 1; }\n",
+	"extdef.proto":  "syntax = \"proto2\";\npackage ed;\nimport \"opts.proto\";\nextend o.Cfg { optional int32 cx = 100; }\n",
+	"types.proto":   "syntax = \"proto2\";\npackage ty;\nmessage T { optional int32 x = 1; }\n",
+	"idle.proto":    "syntax = \"proto2\";\npackage idle;\nmessage Unused { optional int32 x = 1; }\n",
+	"idle2.proto":   "syntax = \"proto2\";\npackage idle2;\nenum AlsoUnused { Z = 0; }\n",
+}
+
+// c19OptRoot builds root.proto: imports in the given order; every import other than opts.proto is used through
+// exactly the construct named in uses, or not at all.
+func c19OptRoot(c c19OptCase) (string, []string) {
+	imports := []string{"opts.proto", "payload.proto", "extdef.proto", "types.proto", "idle.proto", "idle2.proto"}
+	var sb strings.Builder
+	sb.WriteString("syntax = \"proto2\";\npackage root;\n")
+	var present []string
+	for _, i := range c.Order {
+		if c.Uses[i] == "absent" {
+			continue
+		}
+		fmt.Fprintf(&sb, "import %q;\n", imports[i])
+		present = append(present, imports[i])
+	}
+	sb.WriteString("message M {\n")
+	var lit []string
+	if c.Uses[1] == "any-url" {
+		lit = append(lit, "any { [type.googleapis.com/pl.Msg] { x: 1 } }")
+	}
+	if c.Uses[2] == "literal-extension" {
+		lit = append(lit, "[ed.cx]: 7")
+	}
+	if c.Uses[0] == "option-name" {
+		if c.Literal || len(lit) > 0 {
+			fmt.Fprintf(&sb, "  option (o.cfg) = { i: 1 %s };\n", strings.Join(lit, " "))
+		} else {
+			sb.WriteString("  option (o.cfg).i = 1;\n")
+		}
+	}
+	if c.Uses[2] == "option-path-extension" && c.Uses[0] == "option-name" && len(lit) == 0 {
+		sb.WriteString("  option (o.cfg).(ed.cx) = 7;\n")
+	}
+	if c.Uses[3] == "field-type" {
+		sb.WriteString("  optional ty.T t = 1;\n")
+	}
+	sb.WriteString("}\n")
+	return sb.String(), present
+}
+
+func c19OptCheck(c c19OptCase, r *ev.Rec) error {
+	files := map[string]string{}
+	for k, v := range c19OptFiles {
+		files[k] = v
+	}
+	root, present := c19OptRoot(c)
+	files["root.proto"] = root
+	res, unused, err := compileWarn(files, "root.proto")
+	if err != nil {
+		r.Case(ev.JSONFP(c), false, "combination-does-not-compile")
+		return nil
+	}
+	base := stripDeps(fdProto(res[0]))
+	warned := map[string]bool{}
+	for _, u := range unused {
+		warned[strings.TrimPrefix(u, "root.proto:")] = true
+	}
+	optionOnly := false
+	for _, imp := range present {
+		without := strings.Replace(root, fmt.Sprintf("import %q;\n", imp), "", 1)
+		files2 := map[string]string{}
+		for k, v := range files {
+			files2[k] = v
+		}
+		files2["root.proto"] = without
+		res2, _, err2 := compileWarn(files2, "root.proto")
+		removable := err2 == nil && bytes.Equal(stripDeps(fdProto(res2[0])), base)
+		if removable != warned[imp] {
+			return fmt.Errorf("import %q: the file compiles to the same descriptor without it = %v (err without it: %v), unused-import warning issued = %v (warnings: %v)\n%s", imp, removable, err2, warned[imp], unused, root)
+		}
+		if !removable && (imp == "payload.proto" || imp == "extdef.proto" || imp == "opts.proto") {
+			optionOnly = true
+		}
+	}
+	r.Case(ev.JSONFP(c), optionOnly, fmt.Sprintf("imports=%d", len(present)), fmt.Sprintf("warned=%d", len(warned)))
+	if optionOnly && r.WantSample() {
+		r.Sample(map[string]any{"root": root, "warned": unused})
+	}
+	return nil
+}
+
+func TestC19_OptionUses(t *testing.T) {
+	uses := [][]string{
+		{"option-name", "present-unused", "absent"},
+		{"any-url", "present-unused", "absent"},
+		{"literal-extension", "option-path-extension", "present-unused", "absent"},
+		{"field-type", "present-unused", "absent"},
+		{"present-unused", "absent"},
+		{"present-unused", "absent"},
+	}
+	ev.RunEnum(t, ev.Spec[c19OptCase]{ID: "C19", Name: "OptionUses",
+		Rule:  "ALL combinations of how root.proto uses each of six imports - the custom option's file through the option name, a payload file ONLY through an Any type URL inside the option's message literal, an extension file ONLY through an extension name inside the literal or in the option path, a types file through a field type, two idle files; each import present-and-used, present-and-unused or absent - in two import orders and both value spellings; oracle (metamorphic, no model): for every import of the requested file, an unused-import warning is issued exactly when the file compiles to the same descriptor (dependency list aside) with that import removed; non-trivial = some import is needed only by an option value; combinations that do not compile are skipped and counted",
+		Check: c19OptCheck}, true, func(yield func(c19OptCase) bool) {
+		var rec func(i int, cur []string) bool
+		rec = func(i int, cur []string) bool {
+			if i == len(uses) {
+				for _, order := range [][]int{{0, 1, 2, 3, 4, 5}, {5, 3, 2, 1, 0, 4}} {
+					for _, lit := range []bool{true, false} {
+						if !yield(c19OptCase{Uses: append([]string{}, cur...), Order: order, Literal: lit}) {
+							return false
+						}
+					}
+				}
+				return true
+			}
+			for _, u := range uses[i] {
+				if !rec(i+1, append(cur, u)) {
+					return false
+				}
+			}
+			return true
+		}
+		rec(0, nil)
+	})
+}
